@@ -4,37 +4,15 @@
 //! Exit 0 = property held on everything explored; 1 = VIOLATION line(s) printed; 2 = inconclusive.
 
 
-use psc_checks::{common::*, *};
+use psc_checks::{common::*, registry::tape_checks, *};
 
 #[global_allocator]
 static GLOBAL: psc_checks::alloc::Counting = psc_checks::alloc::Counting;
 use psc_model::{
-	runner::{install_quiet_panic_hook, run_tape, CheckFn},
+	runner::{install_quiet_panic_hook, run_tape},
 	serde_json::Value,
 	stats::*,
 };
-
-fn tape_checks<'a>(ctx: &'a Ctx) -> Vec<(&'static str, Box<CheckFn<'a>>)> {
-	match ctx.property {
-		"C01" => c01::tape_checks(ctx),
-		"C02" => c02::tape_checks(ctx),
-		"C03" => c03::tape_checks(ctx),
-		"C07" => c07::tape_checks(ctx),
-		"C08" => c08::tape_checks(ctx),
-		"C14" => c14::tape_checks(ctx),
-		"C18" => c18::tape_checks(ctx),
-		"C19" => c19::tape_checks(ctx),
-		"C11" => c11::tape_checks(ctx),
-		"C12" => c12::tape_checks(ctx),
-		"C13" => c13::tape_checks(ctx),
-		"C15" => c15::tape_checks(ctx),
-		"C16" => c16::tape_checks(ctx),
-		"C06" => c06::tape_checks(ctx),
-		"C10" => c10::tape_checks(ctx),
-		"C09" => c09::tape_checks(ctx),
-		_ => vec![],
-	}
-}
 
 fn run_property(ctx: &Ctx) -> Option<(Level, Report)> {
 	Some(match ctx.property {
